@@ -1,6 +1,6 @@
 (* Corr/C17.v — attribute container, JSON storage form, merge_attributes, Feature equality/hash of
    the implementation against the models. *)
-From GV Require Export Corr.Parser Model.Import Model.Attrs Model.Container.
+From GV Require Export Corr.Parser Model.Import Model.Attrs Model.Json Model.Container.
 Open Scope Z_scope.
 
 Inductive read := Rd (k : str) (with_list without_list : result pyval).
@@ -10,7 +10,8 @@ Inductive fdesc := FD (D : dialect) (seqid source ftype : str) (s e : option Z) 
 Inductive case :=
 | COps (ops : list (bool * (str * pyval)))        (* true: set through setdefault; false: through []=, update(), the constructor *)
        (reads : list read) (stored_kinds : list (str * stored))
-| CJson (a : attrs) (impl : result attrs)
+| CJson (a : attrs) (text : str) (impl : result attrs)   (* _jsonify's text and what _unjsonify makes of it *)
+| CJsonText (text : str) (impl : result attrs)          (* _unjsonify on arbitrary / damaged text; Err = raised or not str->[str] *)
 | CMergeA (numeric : bool) (a1 a2 : attrs) (impl : result attrs) (args_unchanged : bool)
 | CEq (f g : fdesc) (eq streq hasheq : bool).
 
@@ -41,6 +42,14 @@ Definition union_ok (a1 a2 m : attrs) : bool :=
                     let vm := match dget k m with Some v => v | None => [] end in
                     lstr_eqb (sort_strs vm) (as_set (v1 ++ v2)) && keys_nodup vm) keys.
 
+Fixpoint no_pair_b (s : str) : bool :=
+  match s with
+  | c :: r => match r with c2 :: _ => negb (is_hi c && is_lo c2) | [] => true end && no_pair_b r
+  | [] => true
+  end.
+Definition json_in_domain (a : attrs) : bool :=
+  forallb (fun kv => no_pair_b (fst kv) && forallb no_pair_b (snd kv)) a.
+
 Definition verdict (c : case) : Z :=
   match c with
   | COps ops reads kinds =>
@@ -49,10 +58,23 @@ Definition verdict (c : case) : Z :=
       if forallb (fun r => match r with Rd k w wo =>
                     result_eqb pyval_eqb (getitem true d k) w && result_eqb pyval_eqb (getitem false d k) wo end) reads
          && list_eqb (pair_eqb str_eqb stored_eqb) d kinds then V_OK else V_BAD
-  | CJson a impl =>
+  | CJson a text impl =>
       if keys_nodup (map fst a) then
-        match impl with Ok b => if attrs_eqb2 a b then V_OK else V_BAD | Err _ => V_BAD end
+        (* the text is the model's text, decoding it agrees with the model's decoder, and - unless the mapping holds the
+           two halves of a surrogate pair as separate code points (out of the property's "Unicode content") - gives a back *)
+        if str_eqb (dumps_attrs a) text then
+          match loads_attrs text, impl with
+          | Some m, Ok b => if attrs_eqb2 m b then (if attrs_eqb2 a b then V_OK else if json_in_domain a then V_BAD else V_OUT) else V_BAD
+          | _, _ => V_BAD
+          end
+        else V_BAD
       else V_OUT
+  | CJsonText text impl =>
+      match loads_attrs text, impl with
+      | Some m, Ok b => if attrs_eqb2 m b then V_OK else V_BAD
+      | None, Err _ => V_OK
+      | _, _ => V_BAD
+      end
   | CMergeA numeric a1 a2 impl unchanged =>
       if keys_nodup (map fst a1) && keys_nodup (map fst a2) then
         match merge_attributes numeric a1 a2, impl with
